@@ -38,7 +38,7 @@ from .registry import Job, register
 US = "unit_scaling.transforms._unit_scale."
 TU = "unit_scaling.transforms.utils."
 UF = "unit_scaling.functional."
-VERIFYING = [US + n for n in ("unit_scaling_backend", "_add_dependency_meta", "_is_add", "_is_self_attention", "_unit_scale_residual", "_unconstrain_node")] + [TU + "replace_node_with_function"]
+VERIFYING = [US + n for n in ("unit_scaling_backend", "_add_dependency_meta", "_is_add", "_is_self_attention", "_unit_scale_residual", "_unconstrain_node", "_supported_kwargs")] + [TU + "replace_node_with_function"]
 
 # parameters of the Python-level torch functions of the vocabulary (ASSUMED; none has a
 # `constraint` parameter; validated by replay_c16.py torch_map)
@@ -48,6 +48,7 @@ USER_SRC = {
     "user.gelu": "def user_gelu(input, mult=1.0, constraint='to_output_scale', approximate='none'):\n    return input\n",
     "user.positional": "def user_positional(x, constraint, mult=1.0):\n    return x\n",
     "user.plain": "def user_plain(x, y=None):\n    return x\n",
+    "user.private": "def user_private(x, _cache=None, constraint=None):\n    return x\n",
 }
 
 
@@ -220,7 +221,7 @@ def check_graph(it: Any, desc: List[R.Node], replace: Dict[str, str]) -> Tuple[s
     has_constraint = lambda key: "constraint" in (sigs(key) or [])
     if not R.well_nested(desc):
         return "outside-precondition", ""
-    want = R.canon(R.spec_rewrite(desc, replace, has_constraint), sigs)
+    want = R.canon(R.spec_rewrite(desc, replace, has_constraint, sigs), sigs)
     g, _ = to_model(it, desc)
     tmap = it.getattr(it.get_module("unit_scaling.functional"), "torch_map")
     tmap0 = list(tmap.items()) if isinstance(tmap, dict) else None
@@ -649,3 +650,52 @@ def _generic_node_job(kind: str) -> Callable[[], Record]:
 
 for _k in GENERIC_NODES:
     register(Job(f"c16:node[{_k}]", ["C16"], US + "unit_scaling_backend", {"generic_node": _k}, _generic_node_job(_k)))
+
+
+def _supported_kwargs_job() -> Record:
+    """_supported_kwargs(node, f) == the node's keyword arguments minus the private ones (leading
+    underscore) that f has no parameter for; pure"""
+    tag = "C16:transforms._unit_scale._supported_kwargs"
+    cases = [
+        ("U.softmax", {"dim": -1, "_stacklevel": 5, "dtype": None}),
+        ("U.softmax", {"dim": -1}),
+        ("U.softmax", {"dim": -1, "an_option_the_library_does_not_implement": 1}),  # kept: rejected when the module runs, not silently ignored
+        ("U.gelu", {"approximate": "tanh", "_internal": 1}),
+        ("user.private", {"_cache": 3, "_other": 4, "constraint": None}),
+        ("U.linear", {}),
+    ]
+
+    def build(ctx: Ctx) -> Any:
+        it = mk(ctx)
+        fn = lookup_fn(it, US + "_supported_kwargs")
+
+        def thunk() -> Any:
+            out = []
+            for tk, kw in cases:
+                g = FxGraph()
+                x = g.add("placeholder", "x", name="x")
+                n = g.add("call_function", target(it, "F.softmax"), (x,), dict(kw), name="n")
+                sig0 = g.signature()
+                got = it.call(fn, [n, target(it, tk)], {})
+                out.append((tk, kw, got, g.signature() == sig0 and n._kwargs == kw))
+            return out
+
+        return it, thunk
+
+    def post(p: PathResult, i: int) -> Any:
+        ctx = p.ctx
+        if p.outcome != "return":
+            ctx.oblige(f"{tag}:no_exception", False, exc=str(p.exc))
+            return None
+        for tk, kw, got, pure in p.value:
+            params = params_of(target(p.interp, tk)) or []
+            want = {k: v for k, v in kw.items() if not k.startswith("_") or k in params}
+            ctx.oblige(f"{tag}:keeps_every_argument_except_private_ones_the_function_lacks[{tk},{sorted(kw)}]", isinstance(got, dict) and got == want, got=str(got), want=str(want))
+            ctx.oblige(f"{tag}:pure[{tk},{sorted(kw)}]", pure)
+        return None
+
+    return run_config(US + "_supported_kwargs", {}, build, post)
+
+
+register(Job("c16:_supported_kwargs", ["C16"], US + "_supported_kwargs", {}, _supported_kwargs_job))
+
